@@ -375,6 +375,10 @@ func runC03(c *Ctx) error {
 		{"complement", "x := ", "^", "1", "", 6000000}, {"minus", "x := ", "- ", "1", "", 3000000},
 		{"pointer type", "var x ", "*", "int", "", 6000000}, {"slice type", "var x ", "[]", "int", "", 3000000},
 		{"map type", "var x ", "map[int]", "int", "", 1000000}, {"struct type", "type T ", "struct { a ", "int", " }", 300000},
+		// (not Go, but any source text counts) an assignment nested in the index operand of a compound assignment: the
+		// operand is compiled once, not once for the read and once for the store at every level
+		{"compound assignment in index", "a := []int{0, 0}\na", "[a", "[0]", " += 0]", 60}, {"compound assignment in index, deeper", "a := []int{0, 0}\na", "[a", "[0]", " += 0]", 2500},
+		{"increment in index", "a := []int{0, 0}\na", "[a", "[0]", "++]", 70}, {"compound assignment in map key", "m := map[int]int{}\nm", "[m", "[0]", " -= 1]", 64},
 	}
 	for _, d := range deep {
 		if !c.Thorough() && d.n > 500000 && len(d.open)+len(d.close) > 3 {
@@ -409,6 +413,12 @@ func runC03(c *Ctx) error {
 		"import \"fmt\"\nm := map[int]any{}\ns := []any{m}\nm[0] = s\nx := fmt.Sprint(m)\nprintln(len(x) > 0)",
 		"type T struct {\n\tN *T\n\tL []any\n\tM map[int]any\n}\nt := &T{}\nt.N = t\nt.L = append(t.L, t)\nt.M = map[int]any{1: t}\nprintln(t)",
 		"m := map[int]any{}\nm[1] = m\npanic(m)", "a := map[int]any{}\nb := map[string]any{}\na[1] = b\nb[\"x\"] = a\nprintln(a, b)",
+		// structs that reach themselves only through containers of any (one node, two nodes, nested containers)
+		"type Node struct {\n\tname string\n\tkids []any\n}\nroot := &Node{name: \"root\"}\nleaf := &Node{name: \"leaf\"}\nroot.kids = append(root.kids, leaf)\nleaf.kids = append(leaf.kids, root)\nprintln(root)\nprintln(leaf.kids)",
+		"type Node struct {\n\tkids []any\n}\nn := &Node{}\nn.kids = append(n.kids, 1, n)\nprintln(n)\nprintln(n.kids)",
+		"type Node struct {\n\tattr map[string]any\n}\na := &Node{attr: map[string]any{}}\nb := &Node{attr: map[string]any{}}\na.attr[\"peer\"] = b\nb.attr[\"peer\"] = a\nprintln(a)\nprintln(b.attr)",
+		"import \"fmt\"\ntype Node struct {\n\tkids [][]any\n\tm map[int][]any\n}\nn := &Node{m: map[int][]any{}}\nn.kids = append(n.kids, []any{n})\nn.m[1] = []any{[]any{n}}\ns := fmt.Sprint(n)\nprintln(len(s) > 0)\nprintln(fmt.Sprintf(\"%v\", n.kids) != \"\")",
+		"type A struct {\n\tb any\n}\ntype B struct {\n\tas []any\n}\nx := &A{}\ny := &B{}\nx.b = y\ny.as = append(y.as, x, y)\nprintln(x, y)",
 	} {
 		k := c03Case{Kind: "eval", Src: src}
 		c.Pending(map[string]any{"kind": "eval", "src": src, "note": "printing a self-containing value"})
